@@ -109,6 +109,25 @@ for order in (['slow.test', 'quick.test'], ['quick.test', 'slow.test']):
     if got != ref_a:
         diff = ([l for l in got if l not in ref_a][:3] + ['MISSING: ' + l for l in ref_a if l not in got][:3]) if got else 'no block'
         fail({'targets': order, 'threads': 2, 'forced interleaving': 'slow target held until the quick one has finished'}, diff, 'identical to the single-target report', 'leak-interleaved')
+# entries with and without an explicit port in one list: each target is scanned on its own port whatever precedes it
+for order in (['p1.test:2200', 'p2.test'], ['p2.test', 'p1.test:2200'], ['p1.test:2200', 'p2.test', 'p3.test:2201', 'p2.test']):
+    for threads in (1, 2):
+        cases += 1
+        path = targets_file(order)
+        try:
+            net = F.FakeNet({h: peer('clean') for h in ('p1.test', 'p2.test', 'p3.test')})
+            st, out = F.run_main(['-n', '--skip-rate-test', '-T', path, '--threads', str(threads)], net)
+        finally:
+            os.unlink(path)
+        want = {'p1.test': {2200}, 'p2.test': {22}, 'p3.test': {2201}}
+        got = {}
+        for e in net.events:
+            if e[0] == 'connect':
+                h = [x for x, ip in net.ip_of.items() if ip == e[1][0]][0]
+                got.setdefault(h, set()).add(e[1][1])
+        for h in got:
+            if got[h] != want[h]:
+                fail({'targets': order, 'threads': threads, 'host': h}, {'ports': sorted(got[h])}, {'ports': sorted(want[h])}, 'port-leaks-between-targets')
 # policy verdicts: a failing target must not make a later compliant target fail (error accumulation)
 pol = 'Hardened OpenSSH Server v9.9 (version 1)'
 from ssh_audit.builtin_policies import BUILTIN_POLICIES
